@@ -92,6 +92,22 @@ def run(c):
     c.guard("values16", cnt.get("values16", 0) if cnt.get("values16", 0) == 65536 else 0)
     for g in ("values32", "values32_ge_2p31", "values64", "pair_cmp_-1", "pair_cmp_0", "pair_cmp_1", "id", "idpair_ordered", "idpair_same_epoch"):
         c.guard(g, cnt.get(g, 0))
+    # ---- the mutable event as a state machine (EventId.tla): ids carry the CURRENT epoch/lamport whatever was stamped before
+    iedges = c.path("eventid_edges.ndjson")
+    ires = c.tlc_must_pass("fn", "EventId", cfg="MC_EventId", edges_out=iedges, workers=4, timeout=900)
+    irep = vlib.replay_edges(c, "eventid", iedges, walks=c.pick(300, 3000), wlen=c.pick(20, 40), clause="event-id-machine")
+    stale = 0        # Build / SetID on an event whose stamped id carries another epoch or lamport than the current ones
+    with open(iedges) as f:
+        for l in f:
+            e = json.loads(l)
+            pre = e["pre"]
+            if e["act"]["op"] in ("build", "setid") and any(pre["id"]) and e["act"].get("res", {}).get("id", e["post"]["id"])[:8] != pre["id"][:8]:
+                stale += 1
+    c.log("EventId: %d states, %d transitions replayed on dag.MutableBaseEvent (%d re-stamp a stale id), %d walks" % (
+        ires.distinct, irep["applied"], stale, irep["walks"]))
+    c.guard("restamped_stale_ids", stale)
+    for op in ("setepoch", "setlamport", "setid", "build"):
+        c.guard("eventid_" + op, irep["ops"].get(op, 0))
     samples = []
     with open(out) as f:
         for l in f:
@@ -105,14 +121,18 @@ def run(c):
     trivial = 2  # the values 0 (all bytes equal in every order) of each width are counted as trivial
     obl.wait()
     cov = dict(
-        evaluations=rep["compared"],
+        evaluations=rep["compared"] + irep["applied"] + irep["walk_steps"],
+        event_id_machine=dict(states=ires.distinct, transitions=ires.generated, edges_replayed=irep["applied"], restamping_stale_id=stale,
+                              walks=irep["walks"], walk_steps=irep["walk_steps"]),
+        traces_validated_against_impl=irep["walks"],
         distinct_nontrivial=distinct - trivial,
         rule="complete 16-bit table (65 536 values, TLC-enumerated); 32-bit values: seeded/boundary integers below 2^31 and limb pairs (all 64 combinations of "
              "{0,1,255,256,32767,32768,65534,65535} + random); 64-bit values as 4 limbs (%s boundary combinations + random); pairs of values (neighbours across byte "
              "and limb carries, common prefixes, equal, random) with the order computed by TLC; event ids (epoch, lamport, 24-byte tail) and pairs of ids. Each vector "
              "is compared with bigendian/littleendian encoders and decoders, every idx.*.Bytes/BytesTo*, MutableBaseEvent.Build/SetID and hash.Event.Epoch/Lamport. "
-             "Distinct = distinct vector lines (table values counted singly); the all-zero values are counted as trivial" % ("500 sampled" if c.quick else "all 4096"),
-        vectors=rep["vectors"], classes=cnt, states=res.distinct, transitions=res.generated, exhaustive=False,
+             "EventId.tla: complete state graph of the mutable event (SetEpoch, SetLamport, SetID, Build over 2 epochs x 2 lamports x 2 tails), "
+             "every transition replayed on dag.MutableBaseEvent. Distinct = distinct vector lines (table values counted singly); the all-zero values are counted as trivial" % ("500 sampled" if c.quick else "all 4096"),
+        vectors=rep["vectors"], classes=cnt, states=c.tlc_states, transitions=c.tlc_transitions, exhaustive=False,
         samples=samples,
     )
     cov.update(obl.summary())
